@@ -64,9 +64,6 @@ def projects(draw: Any, cycles: bool = False, star_consumers: bool = False) -> D
     for e in exports:
         if e.get('clash_id') and any(x['form'] == 'star' and x['from'] == e['from'] for x in exports):
             del e['clash_id']  # a star import of the same module would bind the name too: which binding is exported depends on line order
-    for e in exports:
-        if e.get('fallback') and any(x['form'] == 'star' and x['from'] == e['from'] and x['via'] == e['via'] for x in exports):
-            del e['fallback']  # (a star import of the same module into the same exporter binds - and moves - the name first)
     # a star import exports every name of that module that is listed: keep one via per (from, star)
     consumers = []
     cnames = draw(st.sampled_from([['c1'], ['c1', 'c2'], ['a_first', 'c2'], ['c1', 'zlast']]))
@@ -101,9 +98,17 @@ def projects(draw: Any, cycles: bool = False, star_consumers: bool = False) -> D
     for e in exports:
         if any(x['form'] == 'star' and x['from'] == e['from'] for x in exports):
             e.pop('clash_id', None)
-        if any(x['form'] == 'star' and x['from'] == e['from'] and x['via'] == e['via'] for x in exports):
-            e.pop('fallback', None)
     return {'impl': impl, 'exports': exports, 'consumers': consumers, 'extra': extra}
+
+
+FALLBACK_AFTER_STAR = 'fallback-definition-between-star-import-and-import-of-the-same-name'
+
+
+def fallback_after_star(proj: Dict[str, Any]) -> List[str]:
+    """Exported names for which the re-exporter reads `from .m import *`, then defines a fallback of the name, then imports the name from
+    .m again: the star import has moved the object already, the fallback supersedes it (finding F68)."""
+    return [e['obj'] for e in proj['exports'] if e.get('fallback') and e['form'] != 'star'
+            and any(x['form'] == 'star' and x['from'] == e['from'] and x['via'] == e['via'] for x in proj['exports'])]
 
 
 def exporter_of(proj: Dict[str, Any], obj: str) -> Optional[Dict[str, Any]]:
